@@ -69,6 +69,10 @@ where
     block.operators.setup(metadata);
     let structure = block.operators.structure();
 
+    #[cfg(feature = "verif")]
+    crate::verif::emit(
+        || serde_json::json!({"ev": "worker", "at": crate::verif::coord_str(coord), "what": "spawn"}),
+    );
     let join_handle = std::thread::Builder::new()
         .name(format!("block-{}", block.id))
         .spawn(move || {
